@@ -1,5 +1,5 @@
 SPECIFICATION Spec
-CONSTANTS InitSize = 1  MaxPn = 5  MaxOps = 1000  GrowOrderOn = FALSE  ClearupOn = TRUE  PopOn = TRUE
+CONSTANTS InitSize = 1  MaxPn = 4  MaxOps = 1000  GrowOrderOn = FALSE  ClearupOn = TRUE  PopOn = TRUE
 INVARIANT NoViolation
 VIEW View
 CHECK_DEADLOCK FALSE
